@@ -212,6 +212,16 @@ print("ok" if out == want and reads[0] == 4 else
       "DEFECT: outputs %s (expected %s), %d reads of c for 4 samples"
       % ([str(v) for v in out], [str(v) for v in want], reads[0]))
 """, "6daa97e~1"),
+  ("17 C17 close() spins for ever after a recording was shaped in place", r"""
+aio = AudioIO(True)
+rec = aio.record(chunk_size=4)
+keep = rec.copy()
+aio.play(rec.limit(8), chunk_size=4)
+print("ok" if within(3, aio.close) else
+      "DEFECT: close() did not return within 3 s (busy loop over the "
+      "recordings list)")
+import os; os._exit(0)
+"""),
 ]
 
 
